@@ -141,11 +141,12 @@ class EventPart:
     """site_prefix distinguishes the property using this part (C01 looks at monitors, C05 at outcomes…)"""
 
     def __init__(self, name="evt", n_quick=3000, n_thorough=60000, max_size=12, max_size_thorough=25, std=None,
-                 extra_flags=(), monitors_only=False, report_crashes=True):
+                 extra_flags=(), monitors_only=False, report_crashes=True, extra_cases=None):
         self.name, self.n_quick, self.n_thorough = name, n_quick, n_thorough
         self.max_size, self.max_size_thorough, self.std, self.extra_flags = max_size, max_size_thorough, std, extra_flags
         self.monitors_only = monitors_only
         self.report_crashes = report_crashes
+        self.extra_cases = extra_cases
 
     def run(self, tier, seed, verdict, cov, driver):
         t0 = time.time()
@@ -164,7 +165,8 @@ class EventPart:
         if os.path.isdir(cdir):
             for fn in sorted(os.listdir(cdir)):
                 corpus += [l.strip() for l in open(os.path.join(cdir, fn)) if l.strip() and not l.startswith("#")]
-        lines = corpus + [g.case(i) for i in range(n)]
+        extra = self.extra_cases(tier, seed) if self.extra_cases else []
+        lines = corpus + extra + [g.case(i) for i in range(n)]
         try:
             impl, crashes = run_lines(exe, lines, "case ")
         except subprocess.TimeoutExpired:
